@@ -3,7 +3,7 @@ import re
 from runner import Prop, Stream
 
 NAME = re.compile(r"^[A-Za-z0-9_-]{1,24}$")
-STR_KEYS = ("id", "name", "section", "auth", "remote_name")
+STR_KEYS = ("id", "name", "section", "auth", "remote_name", "proxy", "tlscertificate", "tlskey", "tlsca", "tlsservername")
 LIST_KEYS = ("source", "fallback")
 INT_KEYS = ("noconfigtool", "tlsskipverify")
 ALL_KEYS = set(STR_KEYS + LIST_KEYS + INT_KEYS + ("flags",))
@@ -64,16 +64,68 @@ def valid(inp):
         return False
 
 
+def valid_busy(inp):
+    """stream busy: exactly a start configuration and one reload, the client's listener (first of the start
+    configuration) in both, hang = symbolic source names"""
+    if not valid(inp) or len(inp["steps"]) != 2:
+        return False
+    hang = inp.get("hang") or []
+    if not (isinstance(hang, list) and all(isinstance(x, str) and NAME.match(x) for x in hang)):
+        return False
+    if inp["steps"][0]["listen"][0] not in inp["steps"][1]["listen"]:
+        return False
+    return True
+
+
+def classify_busy(inp):
+    """(repaired by /repo 77a7b2d, no longer a known-finding class) the reload REMOVES a connection whose peer waits for its backend
+    (removal pass of initializePeers stops the peer while it holds PeerMapLock)"""
+    try:
+        hang = set(inp.get("hang") or [])
+        steps = inp["steps"]
+        if len(steps) != 2:
+            return None
+        after = set(c["id"] for c in steps[1]["conns"])
+        for conn in steps[0]["conns"]:
+            if conn.get("source") and conn["source"][0] in hang and conn["id"] not in after:
+                return "reload_removes_busy_backend"
+    except (KeyError, TypeError, IndexError):
+        pass
+    return None
+
+
+def classify_order(inp):
+    """(repaired by /repo 2efe383, no longer a known-finding class) the rows of the sites table are not in configuration order (any case with two backends)"""
+    try:
+        if any(len(cfg["conns"]) >= 2 for cfg in inp["steps"]):
+            return "sites_row_order"
+    except (KeyError, TypeError):
+        pass
+    return None
+
+
 PROP = Prop(
     pid="C20",
     coq_props="theories/C20/Props.v",
-    coq_run=["theories/C20/Run.v", "theories/C20/Run2.v"],
+    coq_run=["theories/C20/Run.v", "theories/C20/Run2.v", "theories/C20/Run3.v", "theories/C20/Run4.v"],
     streams=[Stream("reload", "c20reload", n_quick=150, n_thorough=2500, valid=valid,
                     what="real Daemon.mainLoop driven by a TOML config file and SIGHUP through mainSignalChannel; "
                          "observed with GET sites over every unix listener plus object identity of peers and listeners"),
              Stream("serve", "c20serve", n_quick=45, n_thorough=900, valid=valid,
                     what="same driver while a unix socket client keeps sending GET sites over a listener that is in every "
                          "configuration; every answer must be explained by the model states its lifetime overlaps "
+                         "(schedule dependent: exercised, not proved)"),
+             Stream("sources", "c20sources", n_quick=40, n_thorough=600, valid=valid,
+                    what="same driver, every source / fallback address a scripted backend of its own whose objects name it and their "
+                         "generation; edits mostly on the list attributes (source / fallback / flags permuted, extended, shortened); "
+                         "observed with GET sites (addr = primary address, status) and GET hosts (whose objects, how old) plus the request "
+                         "logs of the scripted backends: recreated iff the connection differs as the file spells it"),
+             Stream("order", "c20order", n_quick=12, n_thorough=100, valid=valid,
+                    what="same driver and backends, judged only for the order of the rows of the sites table = configuration order"),
+             Stream("busy", "c20busy", n_quick=14, n_thorough=150, valid=valid_busy,
+                    what="one or two connections to a scripted backend that accepts the request and does not answer (NetTimeout 15 s): "
+                         "SIGHUP while their peers wait; the reload changes / removes / keeps the busy connection; two clients send GET "
+                         "sites with a 3 s limit while the reload waits: every answer in time and explained by the states before / after "
                          "(schedule dependent: exercised, not proved)")],
     trusted_base=[
         "Coq 8.16.1 kernel, vm_compute (cases evaluation and the non-vacuity Example); no native_compute",
@@ -89,6 +141,9 @@ PROP = Prop(
         "histories consist of accepted configurations (cfg_ok: a listener, a connection, distinct ids, a source per "
         "connection, distinct listener addresses); other configurations end the process (C20_invalid_config_exits)",
         "one reload is an atomic step of the model; reloads do not overlap (mainLoop is single threaded)",
+        "stream busy: 'in time' = within 3000 ms per GET sites answer (the pinned tree answers in 1-5 ms while the reload waits; "
+        "a reload that keeps clients waiting for a busy peer does so until the backend request ends, here >= 3 s, up to NetTimeout)",
+        "stream sources: go-deadlock switched off as in a daemon started without -debug-deadlock (notes/C20.md F5)",
         "an explicit empty list (`flags = []`) and an absent key are the same definition (not generated: "
         "Connection.Equals distinguishes them, see notes/C20.md)",
     ],
